@@ -217,6 +217,7 @@ Proof.
       * rewrite Hs2; reflexivity.
       * rewrite Hs2; reflexivity.
       * apply become_leader_match_zero.
+      * rewrite Hs2. apply N.leb_le; exact Emaj.
     + split; cbn; auto. rewrite app_nil_r; auto.
   - inversion H; subst; apply lreaches_refl'; auto.
   - (* AE, current *)
@@ -374,6 +375,7 @@ Proof.
         -- rewrite Hs; reflexivity.
         -- rewrite Hs; reflexivity.
         -- apply become_leader_match_zero.
+        -- rewrite Hs. subst sc; cbn. unfold len; cbn. lia.
       * split; cbn; auto. rewrite app_nil_r; auto.
     + destruct (last_log_position sc) as [llt lli] eqn:El. intro H; inversion H; subst s' o; clear H.
       match goal with |- lreaches _ _ _ _ ?o => change o with ([] ++ o) end.
